@@ -397,3 +397,63 @@ func VerifC11StreamAgg(v *vrt.T) {
 	}
 	v.Reach("end")
 }
+
+// VerifC11StreamUnusableRun: a run of equal-time stream points none of which carries the
+// aggregated field (nothing to aggregate) between two usable runs: the runs before and
+// after it are still aggregated over exactly their own points and stamped with their own
+// time.
+func VerifC11StreamUnusableRun(v *vrt.T) {
+	fn, as, pointTimes, kn, _ := verifC11Setup(v, false)
+	dims := models.Dimensions{TagNames: []string{"host"}}
+	mk := func(t int64, val interface{}, i int) edge.PointMessage {
+		f := models.Fields{"g": int64(i)}
+		if val != nil {
+			f[verifAggField] = val
+		}
+		return edge.NewPointMessage("m", "db", "rp", dims, f, models.Tags{"host": "a", "x": "p"}, time.Unix(0, t).UTC())
+	}
+	var g edge.ForwardReceiver
+	var prev *verifAggBatch
+	lastT := int64(0)
+	// runs: 0 usable (optional), 1 unusable, 2 usable, 3 terminating point
+	first := v.Choose("leading usable run", 2)
+	for k := 1 - first; k < 4; k++ {
+		b := &verifAggBatch{isInt: true}
+		n := 1
+		if k == 1 || k == 2 {
+			n = 1 + v.Choose("n", v.Bound("points", 2))
+		}
+		b.tmax = v.Time("t", verifT2020-16, verifT2020+16).UnixNano()
+		if lastT != 0 {
+			v.Assume(b.tmax != lastT)
+		}
+		lastT = b.tmax
+		for i := 0; i < n; i++ {
+			var val interface{}
+			if k != 1 {
+				x := v.Int64("iv")
+				b.ts = append(b.ts, b.tmax)
+				b.iv = append(b.iv, x)
+				val = x
+			}
+			p := mk(b.tmax, val, i)
+			if g == nil {
+				g = kn.newGroup(p)
+			}
+			msg, _ := g.Point(p)
+			switch {
+			case i == 0 && prev != nil:
+				// time advanced after a usable run: that run is emitted now, complete
+				verifC11CheckBatch(v, fn, prev, msg, as, pointTimes)
+			case i > 0:
+				v.Assert(msg == nil, "nothing is emitted while the time does not advance")
+			}
+		}
+		if k == 1 {
+			prev = nil // nothing is due for a run without values (whether the definition on empty input is emitted is left open)
+		} else {
+			prev = b
+		}
+	}
+	v.Reach("end")
+}
